@@ -113,8 +113,8 @@ const HANDLE_USES: &[(&str, &str, &str, &str)] = &[
     ("", "Vec<[Handle; 2]>", "vec![[Handle(\"a\"), Handle(\"b\")]]", "vector of arrays of hand-declared pointer holders"),
     ("#[derive(Epserde, Clone, Copy, Debug)]\n#[repr(C)]\n#[zero_copy]\npub struct T { pub n: u32, pub h: Handle }\n", "T", "T { n: 1, h: Handle(\"a\") }", "derived zero-copy struct with a hand-declared pointer-holder field"),
     ("#[derive(Epserde, Clone, Copy, Debug)]\n#[repr(C)]\n#[zero_copy]\npub struct T { pub hs: [Handle; 2], pub n: u8 }\n", "T", "T { hs: [Handle(\"a\"), Handle(\"b\")], n: 1 }", "derived zero-copy struct with an array-of-pointer-holders field"),
-    ("#[derive(Epserde, Clone, Copy, Debug)]\n#[repr(C)]\n#[zero_copy]\npub enum T { A, B(Handle), C { h: Handle, n: u8 } }\n", "T", "T::C { h: Handle(\"a\"), n: 2 }", "derived zero-copy enum with a pointer holder in a struct-like variant"),
-    ("#[derive(Epserde, Clone, Copy, Debug)]\n#[repr(C)]\n#[zero_copy]\npub enum T { A, B(Handle), C { h: Handle, n: u8 } }\n", "T", "T::B(Handle(\"a\"))", "derived zero-copy enum with a pointer holder in a tuple variant"),
+    ("#[derive(Epserde, Clone, Copy, Debug)]\n#[repr(C)]\n#[zero_copy]\npub enum T { A, B(u32), C { h: Handle, n: u8 } }\n", "T", "T::C { h: Handle(\"a\"), n: 2 }", "derived zero-copy enum with a pointer holder in a struct-like variant"),
+    ("#[derive(Epserde, Clone, Copy, Debug)]\n#[repr(C)]\n#[zero_copy]\npub enum T { A, B(Handle), C { x: u16, n: u8 } }\n", "T", "T::B(Handle(\"a\"))", "derived zero-copy enum with a pointer holder in a tuple variant"),
     ("#[derive(Epserde, Clone, Copy, Debug)]\n#[repr(C)]\n#[zero_copy]\npub struct Z { pub h: Handle }\n#[derive(Epserde, Clone, Debug)]\npub struct T { pub v: Vec<Z>, pub n: u8 }\n", "T", "T { v: vec![Z { h: Handle(\"a\") }], n: 1 }", "deep struct holding a vector of zero-copy structs with a pointer holder"),
     ("#[derive(Epserde, Clone, Debug)]\npub struct T<A> { pub a: A, pub n: u8 }\n", "T<Vec<[Handle; 3]>>", "T { a: vec![[Handle(\"a\"); 3]], n: 1 }", "generic deep struct instantiated with a vector of arrays of pointer holders"),
 ];
